@@ -71,7 +71,7 @@ package message
 //@   ensures !has(m, key) ==> result == "" [absent-is-empty]
 
 //@ func (Metadata).Set
-//@   requires m != nil
+//@   requires m != nil [panics-otherwise-nil-map]
 //@   nopanic
 //@   ensures has(m, key) && m[key] == value [set]
 //@   ensures forall k string :: k != key ==> has(m, k) == old(has(m, k)) && m[k] == old(m[k]) [others-unchanged]
